@@ -18,7 +18,8 @@ EXPLANATION = (
     "value only, and the outcome (return x, return 2**x, raise PieceLengthValueError, other exception escaping) is "
     "compared with the specification: exponents 14..25 -> 2**n, exact powers of two >= 16384 -> themselves, 26..29 either, "
     "everything else -> PieceLengthValueError. C12.2: loop-bound and polarity analysis of the automatic choice (exponent "
-    "starts >= 14, +1 per iteration, bounded by a constant <= 24; the continuation test is upward-closed in the size). "
+    "starts >= 14, +1 per iteration, bounded by a constant <= 24; the continuation test is upward-closed in the size), and the size handed "
+    "to it is the total of the listing the creators hash (utils.filelist_total), not a walk of its own. "
     "C12.3: the value recorded in info['piece length'] is exactly the return value of one of these two functions, the "
     "attribute has no other writer, and 'not given' is decided by None / empty string, not by truthiness.")
 RULE_TEXT = "one obligation per abstract cell of the normaliser (C12.1), per structural fact of the automatic choice (C12.2) and per route fact (C12.3)"
